@@ -390,6 +390,10 @@ class _ComparisonExpression(_PatternExpression):
             self.lhs = ObjectPath.make_object_path(lhs)
         if isinstance(rhs, _Constant):
             self.rhs = rhs
+        elif operator in ("LIKE", "MATCHES") and isinstance(rhs, str):
+            # These operators take a string and nothing else: text which
+            # happens to read as a timestamp is still their string.
+            self.rhs = StringConstant(rhs)
         else:
             self.rhs = make_constant(rhs)
         self.negated = negated
